@@ -190,6 +190,14 @@ C02_Ctor(s, o) ==
 \* simple values: strings, and numbers by their str() rendering (the text recorded with the value)
 AllStrPairs(q) == \A i \in 1..Len(q.pairs) : q.pairs[i][2].t \in {"str", "int"} \/ (q.pairs[i][2].t = "float" /\ q.pairs[i][2].s \notin {<<110,97,110>>, <<105,110,102>>, <<45,105,110,102>>})
 StrPairs(q) == [i \in 1..Len(q.pairs) |-> <<q.pairs[i][1], q.pairs[i][2].s>>]
+\* ... the same with list / tuple values of a mapping expanded to one pair per element (C02 judges those too)
+TextLikeTv(tv) == tv.t \in {"str", "int"} \/ (tv.t = "float" /\ tv.s \notin {<<110,97,110>>, <<105,110,102>>, <<45,105,110,102>>})
+AllTextPairsX(q) == \A i \in 1..Len(q.pairs) :
+   LET v == q.pairs[i][2] IN TextLikeTv(v) \/ (v.t \in {"list", "tuple"} /\ q.form \in {"mapping", "multidict", "kwargs"}
+                                                /\ \A j \in 1..Len(v.items) : TextLikeTv(v.items[j]))
+StrPairsX(q) == Flat([i \in 1..Len(q.pairs) |->
+   LET k == q.pairs[i][1] v == q.pairs[i][2] IN
+   IF v.t \in {"list", "tuple"} THEN [j \in 1..Len(v.items) |-> <<k, v.items[j].s>>] ELSE << <<k, v.s>> >>])
 RawPieces(raw) == LET ps == Split(raw, AMP) IN
    IF raw = <<>> THEN <<>> ELSE [i \in 1..Len(ps) |-> LET pr == Partition(ps[i], EQ) IN <<pr[1], pr[3]>>]
 C02_PairsKept(pairs, raw) ==
@@ -207,8 +215,8 @@ C02_Build(kw, o) ==
                                         \/ (kw.query.form \notin {"str", "none"} /\ kw.query.pairs = <<>>)))
         => Meaning("query", FALSE, kw.query_string, Query5(o))
   /\ ("fragment" \in DOMAIN kw) => Meaning("fragment", FALSE, kw.fragment, Frag5(o))
-  /\ ("query" \in DOMAIN kw /\ kw.query.form \in {"mapping", "pairs", "tuplepairs", "multidict"} /\ AllStrPairs(kw.query)
-        /\ kw.query.pairs # <<>>) => C02_PairsKept(StrPairs(kw.query), Query5(o))
+  /\ ("query" \in DOMAIN kw /\ kw.query.form \in {"mapping", "pairs", "tuplepairs", "multidict"} /\ AllTextPairsX(kw.query)
+        /\ kw.query.pairs # <<>>) => C02_PairsKept(StrPairsX(kw.query), Query5(o))
 
 C02_Modifier(act, args, self, o) ==
   CASE act = "with_user" -> (args.v # None => OptMeaning("user", args.v[1], o.raw_user))
@@ -227,7 +235,7 @@ C02_Modifier(act, args, self, o) ==
           (HasSurrogate(v) \/ IsSuffixOf(SkelIn("path", FALSE, v), SkelOut("path", Path5(o)))))
     [] act = "with_query" ->
           (IF args.q.form = "str" THEN Meaning("query", FALSE, args.q.s, Query5(o))
-           ELSE IF args.q.form # "none" /\ AllStrPairs(args.q) THEN C02_PairsKept(StrPairs(args.q), Query5(o))
+           ELSE IF args.q.form # "none" /\ AllTextPairsX(args.q) THEN C02_PairsKept(StrPairsX(args.q), Query5(o))
            ELSE TRUE)
     [] act = "extend_query" ->
           (IF args.q.form = "str" THEN (HasSurrogate(args.q.s) \/ IsSuffixOf(SkelIn("query", FALSE, args.q.s), SkelOut("query", Query5(o))))
@@ -317,20 +325,27 @@ SameAuthorityBut(S, O, skip) ==
 SameTail(S, O) == Path5(O) = Path5(S) /\ Query5(O) = Query5(S) /\ Frag5(O) = Frag5(S)
 OptTextArg(v, k, f) ==    \* argument option v reads back from optional raw accessor f as its canonical form
   IF v = None THEN Ok(f) /\ V(f) = None ELSE OptMeaning(k, v[1], f)
+\* the host as WRITTEN in the stored authority (RFC split of the text, brackets included) survives the modifiers that are
+\* about userinfo or port -- whatever the accessors say on both sides (judged for well-formed hosts)
+HostTextKept(S, O) ==
+  LET a == SplitAuthority(Netloc5(S)) b == SplitAuthority(Netloc5(O)) IN
+  (~a.oddBrackets /\ a.host # <<>> /\ (IF a.bracketed THEN CanonIPv6Host(a.host) # <<>>
+                                        ELSE ~Has(a.host, COLON) /\ AllLegalFrom(Unreserved \cup SubDelims \cup {PCT}, a.host, 1)))
+  => (~b.oddBrackets /\ b.host = a.host /\ b.bracketed = a.bracketed)
 C11_Frame(act, args, S, O) ==
   CASE act = "with_scheme" -> Scheme5(O) = LowerS(args.v) /\ Netloc5(O) = Netloc5(S) /\ SameTail(S, O)
     [] act = "with_user" ->
-         /\ Scheme5(O) = Scheme5(S) /\ SameTail(S, O) /\ SameAuthorityBut(S, O, {"raw_user", "raw_password"})
+         /\ Scheme5(O) = Scheme5(S) /\ SameTail(S, O) /\ SameAuthorityBut(S, O, {"raw_user", "raw_password"}) /\ HostTextKept(S, O)
          /\ OptTextArg(args.v, "user", O.raw_user)
          /\ (IF args.v = None THEN Ok(O.raw_password) /\ V(O.raw_password) = None ELSE SameF(S, O, "raw_password"))
     [] act = "with_password" ->
-         /\ Scheme5(O) = Scheme5(S) /\ SameTail(S, O) /\ SameAuthorityBut(S, O, {"raw_password"})
+         /\ Scheme5(O) = Scheme5(S) /\ SameTail(S, O) /\ SameAuthorityBut(S, O, {"raw_password"}) /\ HostTextKept(S, O)
          /\ (IF args.v = None THEN Ok(O.raw_password) /\ V(O.raw_password) = None
              ELSE HasSurrogate(args.v[1]) \/ (Ok(O.raw_password) /\ V(O.raw_password) # None
                                               /\ SameMeaning("password", FALSE, args.v[1], V(O.raw_password)[1])))
     [] act = "with_host" -> Scheme5(O) = Scheme5(S) /\ SameTail(S, O) /\ SameAuthorityBut(S, O, {"host_subcomponent"})
     [] act = "with_port" ->
-         /\ Scheme5(O) = Scheme5(S) /\ SameTail(S, O) /\ SameAuthorityBut(S, O, {"explicit_port"})
+         /\ Scheme5(O) = Scheme5(S) /\ SameTail(S, O) /\ SameAuthorityBut(S, O, {"explicit_port"}) /\ HostTextKept(S, O)
          /\ Ok(O.explicit_port)
          /\ (IF args.v.t = "none" THEN V(O.explicit_port) = None
              ELSE args.v.t = "int" /\ Len(args.v.s) <= 5 /\ AllDigits(args.v.s) /\ V(O.explicit_port) = Some(DigitsVal(args.v.s)))
@@ -628,8 +643,11 @@ C13_Div(args, S, outs) ==
         /\ \/ V(outs[3].ok.parts) = TrimTrailingEmpty(V(S.parts))
            \/ TrimTrailingEmpty(V(outs[3].ok.parts)) = TrimTrailingEmpty(V(S.parts))
 \* family "join2": outs = <<joinpath(a, b), joinpath(a).joinpath(b), u / "a/b">>
+\* (joinpath(a, b) against the chained form for ALL texts free of dot segments -- slashes, trailing slashes and empty texts
+\* included; against the single-text spelling u / "a/b" only where that text is unambiguous)
 C13_Join2(args, S, outs) ==
-  (args.a # <<>> /\ args.b # <<>> /\ ~Has(args.a, SLASH)) => (BothRaiseOrSame(outs[1], outs[2]) /\ BothRaiseOrSame(outs[1], outs[3]))
+  /\ (~HasDotSeg(args.a) /\ ~HasDotSeg(args.b)) => BothRaiseOrSame(outs[1], outs[2])
+  /\ (args.a # <<>> /\ args.b # <<>> /\ ~Has(args.a, SLASH)) => (BothRaiseOrSame(outs[1], outs[2]) /\ BothRaiseOrSame(outs[1], outs[3]))
 \* family "with_name": outs = <<u.with_name(n), u.with_name(n).parent, u.parent>>
 C13_WithName(args, S, outs) ==
   (Ok(outs[1]) /\ ~HasSurrogate(args.n)) =>
